@@ -217,3 +217,59 @@ theorem runsTo_strengthen (md : Module) (P : Vm → Prop) : ∀ (n : Nat) (vm vm
       exact hp (k + 1) v (by omega) (.succ orc hrun trivial hstep hr) hv
 
 end Never.Ver
+
+namespace Never.Ver
+open Never Never.Vm
+
+/-! ### `Inside` as a decidable check on concrete runs (for non-vacuity examples) -/
+
+def insideB (md : Module) (hm : HMap) (vm : Vm) : Bool :=
+  match md.code[vm.ip]? with
+  | some i =>
+    i.op != .CALL && i.op != .RET && i.op != .RETHROW && i.op != .HALT && i.op != .UNHANDLED_EXCEPTION &&
+    (i.op != .MK_INIT_ARRAY || (match hm[vm.ip]? with | some (some st) => stackInts vm i.w0 vm.sp == initExts st i.w0 | _ => true))
+  | none => true
+
+theorem insideB_sound {md : Module} {hm : HMap} {vm : Vm} (h : insideB md hm vm = true) : Inside md hm vm := by
+  intro i hi
+  unfold insideB at h
+  rw [hi] at h
+  simp only [Bool.and_eq_true, Bool.or_eq_true, bne_iff_ne, ne_eq] at h
+  obtain ⟨⟨⟨⟨⟨c1, c2⟩, c3⟩, c4⟩, c5⟩, c6⟩ := h
+  refine ⟨c1, c2, c3, c4, c5, fun hop st hst => ?_⟩
+  rcases c6 with c6 | c6
+  · exact absurd hop c6
+  · rw [hst] at c6; simpa using c6
+
+/-- run up to `n` steps while the machine is running and `Inside` its activation; `none` if a step is not -/
+def runInB (md : Module) (hm : HMap) (orc : Nat → Oracle) : Nat → Vm → Option Vm
+  | 0, vm => some vm
+  | n+1, vm =>
+    if vm.running ≠ 1 then some vm else
+    if !insideB md hm vm then none else
+    match (step md (orc n)).run vm with
+    | .ok (_, v1) => runInB md hm orc n v1
+    | .error _ => none
+
+theorem runInB_runsTo (md : Module) (hm : HMap) (orc : Nat → Oracle) : ∀ (n : Nat) (vm vm' : Vm),
+    runInB md hm orc n vm = some vm' → ∃ k, RunsTo md (Inside md hm) k vm vm' := by
+  intro n
+  induction n with
+  | zero => intro vm vm' h; unfold runInB at h; cases h; exact ⟨0, .zero _⟩
+  | succ n ih =>
+    intro vm vm' h
+    unfold runInB at h
+    split at h
+    · cases h; exact ⟨0, .zero _⟩
+    · rename_i hr
+      split at h
+      · cases h
+      · rename_i hb
+        split at h
+        · rename_i u v1 hs
+          obtain ⟨k, hk⟩ := ih _ _ h
+          cases u
+          exact ⟨k + 1, .succ (orc n) (by omega) (insideB_sound (by simpa using hb)) hs hk⟩
+        · cases h
+
+end Never.Ver
